@@ -202,11 +202,11 @@ func c10Sasl(c *Ctx) {
 		}
 		var obs, shown []string
 		for k := range lines {
-			w := times[k].Sub(t0).Nanoseconds() + int64(k)*int64(250*time.Millisecond)
+			w := times[k].Sub(t0).Nanoseconds()
 			obs = append(obs, fmt.Sprintf("%d:%d", len(lines[k]), w))
 			shown = append(shown, fmt.Sprintf("%dB@%.2fs", len(lines[k]), times[k].Sub(t0).Seconds()))
 		}
-		c.RunCases([]Case{{Desc: desc + ": " + strings.Join(shown, " "), Spec: []string{"spec10w " + strings.Join(obs, ",")}, Tag: "wire-burst/after-sasl",
+		c.RunCases([]Case{{Desc: desc + ": " + strings.Join(shown, " "), Spec: []string{"spec10ws 400000000 " + strings.Join(obs, ",")}, Tag: "wire-burst/after-sasl",
 			Key: fmt.Sprintf("sasl/%d/%d", v, c.Seed), Replay: map[string]interface{}{"op": "wire-burst-after-sasl", "drop_first": dropFirst, "arrivals": shown}}})
 	}
 }
@@ -217,6 +217,14 @@ func c10Wire(c *Ctx) {
 		var lens []int
 		for i := 0; i < n; i++ {
 			lens = append(lens, []int{5, 20, 60, 119, 120, 121, 300, 480}[c.R.N(8)])
+		}
+		if s == 0 {
+			// one sustained burst: 13 lines whose charge is just short of a whole number of seconds (2.99 s, 3.99 s): a hold
+			// that is a little too short each time adds up
+			n, lens = 13, nil
+			for i := 0; i < n; i++ {
+				lens = append(lens, []int{119, 119, 119, 239}[c.R.N(4)])
+			}
 		}
 		desc := fmt.Sprintf("burst of %d lines of lengths %v over a real connection with flood protection on", n, lens)
 		c.Journal("C10 wire: " + desc)
@@ -236,7 +244,7 @@ func c10Wire(c *Ctx) {
 		for i := range prot {
 			prot[i] = true
 		}
-		toggled := (s+int(c.Seed))%2 == 1
+		toggled := (s+int(c.Seed))%2 == 1 && s != 0 // the sustained burst is protected throughout
 		if toggled {
 			for i := 3; i < n; i++ {
 				if i == 4 || c.R.P(1, 4) {
@@ -269,7 +277,11 @@ func c10Wire(c *Ctx) {
 					sess.conn.Config().Flood = !prot[i]
 				}
 				issuedAt[i] = time.Now()
-				switch (i + s + int(c.Seed)) % 4 {
+				form := (i + s + int(c.Seed)) % 4
+				if s == 0 { // the sustained burst: raw lines of exactly the chosen lengths
+					form = 3 * (i % 2)
+				}
+				switch form {
 				case 0:
 					sess.conn.Raw(pad("PRIVMSG #c :"))
 				case 1:
@@ -298,7 +310,6 @@ func c10Wire(c *Ctx) {
 			continue
 		}
 		var obs, shown []string
-		kp := 0
 		for k := range lines {
 			if k >= 2 && k-2 < len(prot) && !prot[k-2] {
 				shown = append(shown, fmt.Sprintf("(%dB@%.2fs unprotected)", len(lines[k]), times[k].Sub(t0).Seconds()))
@@ -309,12 +320,11 @@ func c10Wire(c *Ctx) {
 				}
 				continue
 			}
-			w := times[k].Sub(t0).Nanoseconds() + int64(kp)*int64(250*time.Millisecond)
-			kp++
+			w := times[k].Sub(t0).Nanoseconds()
 			obs = append(obs, fmt.Sprintf("%d:%d", len(lines[k]), w))
 			shown = append(shown, fmt.Sprintf("%dB@%.2fs", len(lines[k]), times[k].Sub(t0).Seconds()))
 		}
-		c.RunCases([]Case{{Desc: desc + ": " + strings.Join(shown, " "), Spec: []string{"spec10w " + strings.Join(obs, ",")}, Tag: map[bool]string{false: "wire-burst", true: "wire-burst/toggled"}[toggled],
+		c.RunCases([]Case{{Desc: desc + ": " + strings.Join(shown, " "), Spec: []string{"spec10ws 400000000 " + strings.Join(obs, ",")}, Tag: map[bool]string{false: "wire-burst", true: "wire-burst/toggled"}[toggled],
 			Key: fmt.Sprintf("%v/%d/%d", lens, s, c.Seed), Replay: map[string]interface{}{"op": "wire-burst", "lengths": lens, "arrivals": shown}}})
 	}
 }
